@@ -25,7 +25,7 @@ func init() {
 		ID:    "C15",
 		Title: "Message queues: FIFO, exactly once, no lost wake-up; priority by counter",
 		Explanation: "Decides, from the type-checked SSA of the generic bodies of queue.SimpleQueue and queue.PriorityQueue (every function of the package that touches their fields), shapes that hold or fail for every interleaving at once. " +
-			"SimpleQueue: (D1) items enter the list at one end and leave from the other (PushBack vs Front+Remove, or the mirror image), every removed element is the head element read in the same critical section and its value is what the function returns, every head value that is returned is removed on every path (exactly once), and every list operation runs with the queue mutex held - code that sits in an unexported helper of the package is checked in the helper's body once per exported function through which it is reached, with the locks held on that function's call chains (a helper called with the mutex held is as good as inline code; the helper's result must be passed on to the exported function's return), so extracting or merging helpers neither hides a site nor lowers the obligation count; a parameter of an unexported package function (method or plain function, generic or not) to which every call site passes the queue's list or wake-up channel stands for that field, so list operations, sends and receives written in such helpers are the queue's; a helper call that observes emptiness on every path (take-the-front-if-any) counts as an emptiness observation in its caller, and a result it stored into the caller's named results is 'no item' at a cancelled exit when the helper's boolean is false on every path reaching that exit and the helper returns the zero item whenever it returns false; " +
+			"SimpleQueue: (D1) items enter the list at one end and leave from the other (PushBack vs Front+Remove, or the mirror image), every removed element is the head element read in the same critical section and its value is what the function returns, every head value that is returned is removed on every path (exactly once), and every list operation runs with the queue mutex held - code that sits in an unexported helper of the package is checked in the helper's body once per exported function through which it is reached, with the locks held on that function's call chains (a helper called with the mutex held is as good as inline code; the helper's result must be passed on to the exported function's return), so extracting or merging helpers neither hides a site nor lowers the obligation count; a closure handed to a package helper that only calls it (withLock(func())) runs with the locks the helper holds at that call and belongs to the exported function that created it, values it stores into captured result variables are followed into that function; the capacity of the wake-up channel is followed through a package constructor of a named channel type; a parameter of an unexported package function (method or plain function, generic or not) to which every call site passes the queue's list or wake-up channel stands for that field, so list operations, sends and receives written in such helpers are the queue's; a helper call that observes emptiness on every path (take-the-front-if-any) counts as an emptiness observation in its caller, and a result it stored into the caller's named results is 'no item' at a cancelled exit when the helper's boolean is false on every path reaching that exit and the helper returns the zero item whenever it returns false; " +
 			"(D2) the wake-up channel is not of the losing shape 'capacity 0 + non-blocking send + receive performed after the mutex was released' (a send falling between the waiter's unlock and its receive is dropped), and the blocking wait is never entered with the mutex held; every receive that takes a token off the wake-up channel (the blocking wait, a non-blocking drain, in the waiter or in a helper on its path) is followed, before the consumer can block on the channel again, by a fresh emptiness test made with the mutex held - unless it was made with the mutex held on the empty side of such a test in the same critical section (the token is then provably stale) - because a token taken after the mutex was released may belong to an item that has not been seen; and an exported function never reaches its blocking wait from the entry without such a test; a non-blocking receive on the wake-up channel in code that is not part of the consumer's wait (Pop, Add, their helpers - it can run while a consumer is about to block, and the one-slot channel coalesces several signals into one token) is allowed only under the mutex on the empty side of an emptiness test; " +
 			"(D3) after every wake-up the waiter re-observes emptiness (Len, or a nil-tested Front/Back) before any removal; " +
 			"(D4) every insertion is followed on every path by a wake-up send, or preceded by one inside the same uninterrupted critical section; " +
@@ -229,6 +229,10 @@ func (e *c15Env) rootsOf(fn *ssa.Function) []*ssa.Function {
 			return
 		}
 		seen[f] = true
+		if f.Parent() != nil && len(e.closureSites(f)) > 0 {
+			visit(f.Parent(), depth+1)
+			return
+		}
 		obj := f.Object()
 		sites := e.callSitesOf(f)
 		if depth >= 4 || f.Parent() != nil || (obj != nil && obj.Exported()) || len(sites) == 0 {
@@ -271,6 +275,34 @@ func (e *c15Env) holdsDepth(in ssa.Instruction, classes []string, mode byte, dep
 	}
 	// unexported helper of the package: held when every call site in the package holds it
 	fn := in.Parent()
+	if fn.Parent() != nil && depth < 3 {
+		// closure handed to a package helper that calls it: entered with the locks the helper
+		// holds at that call (no lock operation of its own may release them first)
+		sites := e.closureSites(fn)
+		n := 0
+		for _, st := range sites {
+			if root != nil && !e.reachedFrom(st.creator, root) {
+				continue
+			}
+			n++
+			if !e.holdsDepth(st.at, classes, mode, depth+1, nil) {
+				return false
+			}
+		}
+		if n == 0 {
+			return false
+		}
+		for _, b := range fn.Blocks {
+			for _, x := range b.Instrs {
+				if ci, ok := x.(ssa.CallInstruction); ok {
+					if _, isLock := lockOpOf(ci); isLock {
+						return false
+					}
+				}
+			}
+		}
+		return true
+	}
 	if obj := fn.Object(); depth >= 3 || fn.Parent() != nil || (obj != nil && obj.Exported()) {
 		return false
 	}
@@ -456,6 +488,15 @@ func c15Leaves(v ssa.Value) (leaves []ssa.Value, zero bool) {
 				return
 			}
 		case *ssa.UnOp:
+			if al, ok := x.X.(*ssa.Alloc); ok && x.Op == token.MUL && closureWrites(al) {
+				if vals, ok := c15CapturedStores(al); ok {
+					zero = true
+					for _, s := range vals {
+						visit(s)
+					}
+					return
+				}
+			}
 			if al, ok := x.X.(*ssa.Alloc); ok && x.Op == token.MUL && !closureWrites(al) {
 				vals, z := c15ReachingStores(al, x)
 				if z {
@@ -556,6 +597,11 @@ func c15FlowsForward(seeds ...ssa.Value) (rets map[*ssa.Return]bool, callArgs ma
 				if u.Val == v {
 					if al, ok := u.Addr.(*ssa.Alloc); ok {
 						visit(al) // loads of the cell
+					}
+					if fv, ok := u.Addr.(*ssa.FreeVar); ok {
+						if cell := c15FreeBinding(fv); cell != nil {
+							visit(cell) // loads of the captured cell in the enclosing function
+						}
 					}
 				}
 			case *ssa.Return:
@@ -754,10 +800,8 @@ func (s *c15Simple) collect() {
 					if n, i, _ := c15FieldRef(x.Addr); n != nil && n.Obj() == s.named.Obj() && c15HasInt(s.chanIdx, i) {
 						if _, isAddr := x.Addr.(*ssa.FieldAddr); isAddr {
 							capv := int64(-1)
-							if mk, ok := x.Val.(*ssa.MakeChan); ok {
-								if k, ok := constInt(mk.Size); ok {
-									capv = k
-								}
+							if k, ok := s.chanCap(x.Val, 0); ok {
+								capv = k
 							}
 							s.caps = append(s.caps, capv)
 							s.makeFns = append(s.makeFns, fn)
@@ -908,7 +952,7 @@ func (s *c15Simple) rulePairing() {
 				c.fail("D1", construct, posOf(gap), "the queue mutex is not held continuously between reading the head element and removing it: another goroutine can remove the same element (item delivered twice) in between")
 			case len(rets) == 0:
 				c.fail("D1", construct, posOf(op.in), "the value of the removed element does not reach a result of the function: the item is taken out of the queue and lost")
-			case !s.resultReachesRoot(op.fn, root, 0):
+			case !s.retsReachRoot(rets, root):
 				c.fail("D1", construct, posOf(op.in), "the helper returns the removed item but %s does not return the helper's result on to its caller: the item is taken out of the queue and lost", fnName(root))
 			default:
 				c.ok("D1", construct, posOf(op.in), "removes the head element read in the same critical section and returns its value")
@@ -957,6 +1001,11 @@ func (s *c15Simple) rulePairing() {
 			retSet := map[ssa.Instruction]bool{}
 			for r := range rets {
 				retSet[r] = true
+				if r.Parent() != op.fn {
+					for own := range c15Returns(op.fn) {
+						retSet[own] = true
+					}
+				}
 			}
 			if esc := c15After(rdIn, retSet, removes); esc != nil {
 				msg, at = "a path returns the head item without removing its element from the list: the item is handed out more than once", esc
@@ -971,6 +1020,17 @@ func (s *c15Simple) rulePairing() {
 			}
 		}
 	}
+}
+
+// retsReachRoot: one of the returns the item flows to (in the function itself, or, through a
+// captured result variable, in the function that created the closure) is passed on to root.
+func (s *c15Simple) retsReachRoot(rets map[*ssa.Return]bool, root *ssa.Function) bool {
+	for r := range rets {
+		if s.resultReachesRoot(r.Parent(), root, 0) {
+			return true
+		}
+	}
+	return false
 }
 
 // resultReachesRoot: the results of helper fn are passed on, call by call, to a return of the
@@ -2626,6 +2686,29 @@ func (p *c15Prio) ruleAPI() {
 				}
 			}
 		}
+		for _, b := range add.Blocks {
+			for _, in := range b.Instrs {
+				for _, cl := range p.e.closuresRunAt(in) {
+					// the closure is run on every path of the helper: it must push on every path
+					inner := map[ssa.Instruction]bool{}
+					for _, cb := range cl.Blocks {
+						for _, x := range cb.Instrs {
+							if name, _ := p.heapCallOn(x); name == "Push" {
+								args := x.(ssa.CallInstruction).Common().Args
+								if len(args) == 2 {
+									if lv, _ := c15Leaves(args[1]); len(lv) == 1 && c15CapturedParam(lv[0]) == add.Params[1] {
+										inner[x] = true
+									}
+								}
+							}
+						}
+					}
+					if len(cl.Blocks) > 0 && len(inner) > 0 && c15Search(cl.Blocks[0], 0, c15Returns(cl), inner, nil) == nil {
+						pushes[in] = true
+					}
+				}
+			}
+		}
 		if esc := c15Search(add.Blocks[0], 0, c15Returns(add), pushes, nil); esc != nil {
 			c.fail("D6", construct, posOf(esc), "Add can return without container/heap.Push(queue, item): the item is lost or is stored without being sifted into heap order")
 		} else {
@@ -3145,4 +3228,255 @@ func (s *c15Simple) ruleTokenRecheck() {
 			c.ok("D2", construct, fn.Pos(), "the blocking wait is reached only after an emptiness test made with the mutex held")
 		}
 	}
+}
+
+// ---------------------------------------------------------------------------
+// closures run by a package helper (the withLock(func()) idiom)
+
+// c15ClosureSites: for closure cl, the places where it runs: the calls of the func parameter
+// inside package helpers to which the closure is handed (and used for nothing else), together
+// with the function that creates the closure. nil when the closure is used in any other way.
+type c15RunSite struct {
+	at      ssa.Instruction // call of the func parameter inside the helper
+	creator *ssa.Function   // function containing the MakeClosure
+	call    ssa.Instruction // the call of the helper in the creator
+}
+
+func (e *c15Env) closureSites(cl *ssa.Function) []c15RunSite {
+	par := cl.Parent()
+	if par == nil {
+		return nil
+	}
+	var out []c15RunSite
+	for _, b := range par.Blocks {
+		for _, in := range b.Instrs {
+			mc, ok := in.(*ssa.MakeClosure)
+			if !ok || mc.Fn != ssa.Value(cl) || mc.Referrers() == nil {
+				continue
+			}
+			for _, r := range *mc.Referrers() {
+				if _, isDbg := r.(*ssa.DebugRef); isDbg {
+					continue
+				}
+				call, ok := r.(*ssa.Call)
+				if !ok {
+					return nil
+				}
+				h := staticCallee(call.Common())
+				if h == nil {
+					return nil
+				}
+				if o := h.Origin(); o != nil {
+					h = o
+				}
+				inPkg := false
+				for _, g := range e.fns {
+					if g == h {
+						inPkg = true
+					}
+				}
+				if !inPkg {
+					return nil
+				}
+				for pi, a := range call.Common().Args {
+					if a != ssa.Value(mc) || pi >= len(h.Params) {
+						continue
+					}
+					prm := h.Params[pi]
+					if prm.Referrers() == nil {
+						return nil
+					}
+					for _, pr := range *prm.Referrers() {
+						if _, isDbg := pr.(*ssa.DebugRef); isDbg {
+							continue
+						}
+						pc, ok := pr.(*ssa.Call)
+						if !ok || pc.Common().Value != ssa.Value(prm) {
+							return nil // stored, passed on, started with go: unknown context
+						}
+						out = append(out, c15RunSite{pc, par, call})
+					}
+				}
+			}
+		}
+	}
+	return out
+}
+
+// closuresRunAt: the closures that the call instruction in (a call of a package helper) runs
+// on every path of the helper.
+func (e *c15Env) closuresRunAt(in ssa.Instruction) []*ssa.Function {
+	call, ok := in.(*ssa.Call)
+	if !ok {
+		return nil
+	}
+	var out []*ssa.Function
+	for _, a := range call.Common().Args {
+		mc, ok := a.(*ssa.MakeClosure)
+		if !ok {
+			continue
+		}
+		cl, _ := mc.Fn.(*ssa.Function)
+		if cl == nil {
+			continue
+		}
+		sites := e.closureSites(cl)
+		if len(sites) == 0 {
+			continue
+		}
+		runs := map[ssa.Instruction]bool{}
+		var h *ssa.Function
+		for _, st := range sites {
+			if st.call == in {
+				runs[st.at] = true
+				h = st.at.Parent()
+			}
+		}
+		if h != nil && len(h.Blocks) > 0 && c15Search(h.Blocks[0], 0, c15Returns(h), runs, nil) == nil {
+			out = append(out, cl)
+		}
+	}
+	return out
+}
+
+// c15FreeBinding: the cell of the enclosing function that free variable fv is bound to.
+func c15FreeBinding(fv *ssa.FreeVar) ssa.Value {
+	cl := fv.Parent()
+	par := cl.Parent()
+	if par == nil {
+		return nil
+	}
+	idx := -1
+	for i, f := range cl.FreeVars {
+		if f == fv {
+			idx = i
+		}
+	}
+	for _, b := range par.Blocks {
+		for _, in := range b.Instrs {
+			if mc, ok := in.(*ssa.MakeClosure); ok && mc.Fn == ssa.Value(cl) && idx >= 0 && idx < len(mc.Bindings) {
+				return mc.Bindings[idx]
+			}
+		}
+	}
+	return nil
+}
+
+// c15CapturedParam: v is a load of a captured variable that holds, unchanged, a parameter of
+// the enclosing function; returns that parameter.
+func c15CapturedParam(v ssa.Value) *ssa.Parameter {
+	ld, ok := v.(*ssa.UnOp)
+	if !ok || ld.Op != token.MUL {
+		return nil
+	}
+	fv, ok := ld.X.(*ssa.FreeVar)
+	if !ok {
+		return nil
+	}
+	al, ok := c15FreeBinding(fv).(*ssa.Alloc)
+	if !ok || al.Referrers() == nil {
+		return nil
+	}
+	var par *ssa.Parameter
+	n := 0
+	for _, r := range *al.Referrers() {
+		if st, ok := r.(*ssa.Store); ok && st.Addr == ssa.Value(al) {
+			n++
+			par, _ = st.Val.(*ssa.Parameter)
+		}
+	}
+	// no store inside the closures that capture it
+	for _, f := range fv.Parent().FreeVars {
+		if f == fv && f.Referrers() != nil {
+			for _, r := range *f.Referrers() {
+				if st, ok := r.(*ssa.Store); ok && st.Addr == ssa.Value(f) {
+					return nil
+				}
+			}
+		}
+	}
+	if n != 1 {
+		return nil
+	}
+	return par
+}
+
+// c15CapturedStores: every value stored into cell al, by its function or by the closures that
+// capture it (flow-insensitive); ok=false when the cell escapes in another way.
+func c15CapturedStores(al *ssa.Alloc) ([]ssa.Value, bool) {
+	var out []ssa.Value
+	if al.Referrers() == nil {
+		return nil, false
+	}
+	for _, r := range *al.Referrers() {
+		switch u := r.(type) {
+		case *ssa.Store:
+			if u.Addr != ssa.Value(al) {
+				return nil, false
+			}
+			out = append(out, u.Val)
+		case *ssa.UnOp, *ssa.DebugRef:
+		case *ssa.MakeClosure:
+			cl, ok := u.Fn.(*ssa.Function)
+			if !ok {
+				return nil, false
+			}
+			for i, b := range u.Bindings {
+				if b != ssa.Value(al) || i >= len(cl.FreeVars) || cl.FreeVars[i].Referrers() == nil {
+					continue
+				}
+				for _, fr := range *cl.FreeVars[i].Referrers() {
+					switch x := fr.(type) {
+					case *ssa.Store:
+						if x.Addr != ssa.Value(cl.FreeVars[i]) {
+							return nil, false
+						}
+						out = append(out, x.Val)
+					case *ssa.UnOp, *ssa.DebugRef:
+					default:
+						return nil, false
+					}
+				}
+			}
+		default:
+			return nil, false
+		}
+	}
+	return out, true
+}
+
+// chanCap: the constant capacity of channel value v: a make(chan, k), or the result of a
+// package function (constructor of a named channel type) all of whose returns are such.
+func (s *c15Simple) chanCap(v ssa.Value, depth int) (int64, bool) {
+	for i := 0; i < 3; i++ {
+		if ct, ok := v.(*ssa.ChangeType); ok {
+			v = ct.X
+		}
+	}
+	switch x := v.(type) {
+	case *ssa.MakeChan:
+		return constInt(x.Size)
+	case *ssa.Call:
+		g := s.pkgCallee(x)
+		if g == nil || depth > 2 || g.Signature.Results().Len() != 1 {
+			return 0, false
+		}
+		res, n := int64(0), 0
+		for _, r := range returnsOf(g) {
+			leaves, zero := c15Leaves(retResults(r)[0])
+			if zero {
+				return 0, false
+			}
+			for _, lf := range leaves {
+				k, ok := s.chanCap(lf, depth+1)
+				if !ok || (n > 0 && k != res) {
+					return 0, false
+				}
+				res = k
+				n++
+			}
+		}
+		return res, n > 0
+	}
+	return 0, false
 }
